@@ -57,7 +57,7 @@ CHECKS = [
         "property_id": "C13",
         "category": "fault_enumeration",
         "text": "every single structural fault (site x kind), every truncation point and payload corruption on a fixed family of feature-covering seed documents, run through three extraction entry points under a step clock and memory cap; outcome must be return or PSException within a step budget proportional to input size",
-        "note": "thorough enumerates the finite fault set completely; quick samples it by VERIF_SEED; single faults only",
+        "note": "thorough enumerates the finite fault set completely; quick runs every structural/payload/container/trailer fault and samples the truncation points by VERIF_SEED; single faults only",
         "technique": DS + "enumerated single-fault injection into seed documents under a simulated step clock",
     },
     {
